@@ -155,12 +155,21 @@ KF_C11_cross(step) ==
            /\ MultiMemberOnly(step.res.d.bundles[i].recs, step.res.d3.bundles[j].recs)
   THEN "KF-C11-multimember" ELSE ""
 
+(* KF-C01-default-prefix: a namespace registered under the PREFIX "default" cannot be written *)
+(* to PROV-JSON: "default" is the reserved key of the default namespace in the prefix block.    *)
+HasDefaultPrefix(src) ==
+  \/ \E e \in SeqToSet(src.ns.reg) : e[1] = "default"
+  \/ \E i \in 1..Len(src.bundles) : \E e \in SeqToSet(src.bundles[i].ns.reg) : e[1] = "default"
+KF_default(step) == IF HasDefaultPrefix(step.src) THEN "KF-C01-default-prefix" ELSE ""
+
 KnownFinding(step, c) ==
   CASE c = "C03c" -> KF_C03c(step)
     [] c = "C05_refuse" -> KF_C05_refuse(step)
     [] c = "C08_pure"   -> KF_pure(step)
     [] c = "C12_frame"  -> KF_frame(step)
-    [] c = "C01_rt"     -> KF_rt(step)
+    [] c = "C01_rt"     -> IF KF_default(step) # "" THEN KF_default(step) ELSE KF_rt(step)
+    [] c = "C01_noexc"  -> KF_default(step)
+    [] c = "C10_wf_json" -> KF_default(step)
     [] c = "C02_rt"     -> KF_rt(step)
     [] c = "C10_read_xml" -> IF ShadowExplains(step.src, SpecReadXML(step.ast)) THEN "KF-C03-shadow" ELSE ""
     [] c = "C13_pure" ->
@@ -172,7 +181,7 @@ KnownFinding(step, c) ==
     [] c = "C11_cross" -> KF_C11_cross(step)
     [] c = "C06_grammar" -> KF_C06_grammar(step)
     [] c = "C06_denotes" -> IF ShadowExplains(step.src, SpecReadProvN(step.ast)) THEN "KF-C03-shadow" ELSE ""
-    [] c = "C10_read_json" -> IF ShadowExplains(step.src, SpecReadJSON(step.ast)) THEN "KF-C03-shadow" ELSE ""
+    [] c = "C10_read_json" -> IF KF_default(step) # "" THEN KF_default(step) ELSE IF ShadowExplains(step.src, SpecReadJSON(step.ast)) THEN "KF-C03-shadow" ELSE ""
     [] OTHER -> ""
 
 =============================================================================
